@@ -176,6 +176,11 @@ def install(relevant: dict):
     return {getattr(k, "co_name", str(k)): (None if v is None else len(v)) for k, v in _relevant.items()}
 
 
+def clear():
+    """Forget every preemption point (the next install() starts from nothing)."""
+    _relevant.clear()
+
+
 def enumerate_schedules(run_one, bound: int, shard=0, nshards=1, max_runs=None):
     """Stateless DFS over all schedules with cost <= bound.
     run_one(decisions) -> trace (list of alternative counts per choice point).
